@@ -15,11 +15,16 @@
     XPath's — so precedence, associativity, unary minus, filters, paths, calls and node tests are
     structured as the abstract syntax says (`parse_render_model`, `parse_render_spec`); every positive
     double has such a spelling (`doubles_spellable`); the lexer inverts spelling for any white space
-    between tokens and for none wherever two tokens cannot merge (`lexer_inverts_spelling`,
-    `lexer_any_whitespace`, `lexer_without_whitespace`, `merging_pairs`); and end to end on
-    STRINGS: the characters of the canonical spelling of every well-formed tree with ordinary names
-    are lexed and parsed back to that tree, under xsel's syntax and under XPath's
-    (`string_roundtrip_model`, `string_roundtrip_spec`).
+    between tokens and for none wherever two tokens cannot merge — up to XPath's reading of the
+    operator names `or and div mod` as names where an operand is expected, which xsel applies to the
+    token list (`lexer_inverts_spelling`, `lexer_any_whitespace`, `lexer_without_whitespace`, their
+    `…_placed` forms, `tokeniser_without_whitespace`, `operator_name_rule`, `merging_pairs`); and end
+    to end on STRINGS: the characters of the canonical spelling of every well-formed tree with
+    ordinary names are lexed and parsed back to that tree, under xsel's syntax and under XPath's
+    (`string_roundtrip_model`, `string_roundtrip_spec`), the two formulations of the operator-name
+    rule (xsel: on the tokens; the specification: in the parser) read every canonical spelling alike
+    (`model_and_spec_read_alike`), and an element called `div` can be selected
+    (`operator_names_are_names`).
   NOT proved: that gogll's generated DFA and GLL engine implement that lexer and parser (differential),
   and completeness of the model parser for non-canonical spellings (differential: flag `ast`).
 -/
@@ -183,24 +188,74 @@ example : wfE (.bin .or (.bin .sub (.bin .sub (.num (.fin 1)) (.num (.fin 2))) (
     (.step (.step .root .descendantOrSelf .node .nil) .child (.qname ['p'] ['a']) (.cons (.call .ctx none ['l','a','s','t'] .nil) .nil))) = true := by
   decide +kernel
 
+/-! The lexer is the tokeniser `lexRaw` (keywords are always keyword tokens) followed by `lc.retag`:
+    nothing when `lc.opRule = false` (`lexSpec`: the parser decides, `Cfg.opNames`), and when
+    `lc.opRule = true` (`lexModel`) `retagOps true` — XPath 1.0 §3.7: an `or and div mod` keyword
+    where an operand is expected (at the start, after `@ :: : ( [ ,` or an operator) becomes the
+    `ncname` token of the same text.  `opsPlaced true ts`: there is no such keyword in `ts`. -/
+
 /-- **lexer_inverts_spelling** — for well-formed tokens separated by single spaces -/
 theorem lexer_inverts_spelling (lc : LexCfg) (ts : List Tok) (h : ∀ t ∈ ts, tokOk lc t = true) :
-    lex lc (spellAll ts) = .ok (ts.map (fun t => ⟨t, false⟩)) :=
+    lex lc (spellAll ts) = .ok (lc.retag (ts.map (fun t => ⟨t, false⟩))) :=
   lex_spellAll lc ts h
+
+/-- … exactly the tokens, when the rule is off or every operator name stands after an operand -/
+theorem lexer_inverts_spelling_placed (lc : LexCfg) (ts : List Tok) (h : ∀ t ∈ ts, tokOk lc t = true)
+    (hp : lc.opRule = true → opsPlaced true (ts.map (fun t => (⟨t, false⟩ : LTok))) = true) :
+    lex lc (spellAll ts) = .ok (ts.map (fun t => ⟨t, false⟩)) :=
+  lex_spellAll_placed lc ts h hp
 
 /-- **lexer_any_whitespace** — any non-empty white-space runs between the tokens, and trailing white
     space, give the same tokens -/
 theorem lexer_any_whitespace (lc : LexCfg) (items : List (Chars × Tok)) (trail : Chars)
     (h : ∀ it ∈ items, it.1 ≠ [] ∧ (∀ c ∈ it.1, isSpace lc c = true) ∧ tokOk lc it.2 = true)
     (htr : ∀ c ∈ trail, isSpace lc c = true) :
-    lex lc (spellPadded items trail) = .ok (items.map (fun it => ⟨it.2, false⟩)) :=
+    lex lc (spellPadded items trail) = .ok (lc.retag (items.map (fun it => ⟨it.2, false⟩))) :=
   lex_extra_space lc items trail h htr
+
+theorem lexer_any_whitespace_placed (lc : LexCfg) (items : List (Chars × Tok)) (trail : Chars)
+    (h : ∀ it ∈ items, it.1 ≠ [] ∧ (∀ c ∈ it.1, isSpace lc c = true) ∧ tokOk lc it.2 = true)
+    (htr : ∀ c ∈ trail, isSpace lc c = true)
+    (hp : lc.opRule = true → opsPlaced true (items.map (fun it => (⟨it.2, false⟩ : LTok))) = true) :
+    lex lc (spellPadded items trail) = .ok (items.map (fun it => ⟨it.2, false⟩)) :=
+  lex_extra_space_placed lc items trail h htr hp
 
 /-- **lexer_without_whitespace** — the space before a token may be left out wherever the two tokens
     cannot merge; the token is then marked as adjacent -/
 theorem lexer_without_whitespace (lc : LexCfg) (items : List (Bool × Tok)) (h : glueAllOk lc items = true) :
-    lex lc (spellGlue items) = .ok (glueToks items) :=
+    lex lc (spellGlue items) = .ok (lc.retag (glueToks items)) :=
   lex_spellGlue lc items h
+
+theorem lexer_without_whitespace_placed (lc : LexCfg) (items : List (Bool × Tok))
+    (h : glueAllOk lc items = true) (hp : lc.opRule = true → opsPlaced true (glueToks items) = true) :
+    lex lc (spellGlue items) = .ok (glueToks items) :=
+  lex_spellGlue_placed lc items h hp
+
+/-- the tokeniser alone (the generated DFA) reads back exactly the tokens, for every `lc` -/
+theorem tokeniser_without_whitespace (lc : LexCfg) (items : List (Bool × Tok)) (h : glueAllOk lc items = true) :
+    lexRaw lc (spellGlue items) = .ok (glueToks items) :=
+  lexRaw_spellGlue lc items h
+
+/-- **operator_name_rule** — what `retagOps` (hence `lex lexModel` after `lexRaw`) does to a token list:
+    length, adjacency flags and the text of every token are kept; a token that is not an `or and div
+    mod` keyword stays; a token that changes was such a keyword and becomes the name it spells; and
+    nothing at all changes iff no such keyword stands where an operand is expected.  For `lexSpec`
+    the lexer is the tokeniser. -/
+theorem operator_name_rule (exp : Bool) (ts : List LTok) :
+    (retagOps exp ts).length = ts.length
+    ∧ (retagOps exp ts).map (·.glued) = ts.map (·.glued)
+    ∧ (retagOps exp ts).map (·.tok.spell) = ts.map (·.tok.spell)
+    ∧ (∀ (i : Nat) (t : LTok), ts[i]? = some t → t.tok.isOpKw = false → (retagOps exp ts)[i]? = some t)
+    ∧ (∀ (i : Nat) (t t' : LTok), ts[i]? = some t → (retagOps exp ts)[i]? = some t' → t' ≠ t →
+        ∃ k : Kw, k.isOpName = true ∧ t.tok = .kw k ∧ t' = ⟨.ncname k.chars, t.glued⟩)
+    ∧ (retagOps exp ts = ts ↔ opsPlaced exp ts = true) :=
+  ⟨retagOps_length exp ts, retagOps_glued exp ts, retagOps_spell exp ts,
+   fun i t hi h => retagOps_keeps exp ts i t hi h,
+   fun i t t' hi hi' hne => retagOps_changes exp ts i t t' hi hi' hne,
+   opsPlaced_of_retagOps_id exp ts, retagOps_id exp ts⟩
+
+theorem lexSpec_is_tokeniser (cs : Chars) : lex lexSpec cs = lexRaw lexSpec cs := by
+  rw [lex_eq]; cases lexRaw lexSpec cs <;> rfl
 
 /-- `child::a[@b='x']//c` written without any white space -/
 example : lex lexModel "child::a[@b='x']//c".toList =
@@ -217,8 +272,14 @@ example : lex lexModel "child::a[@b='x']//c".toList =
   not keywords, variable names are names of the lexer, a literal (or processing-instruction target)
   does not contain both kinds of quote nor a backslash. -/
 
-/-- the lexer reads the characters of the canonical spelling back as exactly the rendered tokens,
-    adjacency flags included -/
+/-- in the canonical spelling every operator-name keyword is an operator and directly follows the
+    last token of an operand — the operator-name rule changes nothing there -/
+theorem canonical_spelling_operators_placed (e : Expr) :
+    opsPlaced true (renderTop e) = true ∧ retagOps true (renderTop e) = renderTop e :=
+  ⟨placed_renderTop e, retagOps_renderTop e⟩
+
+/-- the lexer (with the operator-name rule or without) reads the characters of the canonical spelling
+    back as exactly the rendered tokens, adjacency flags included -/
 theorem lexer_inverts_canonical_spelling (lc : LexCfg) (e : Expr) (h : wfE e = true)
     (hn : namesOk lc e = true) : lex lc (spellToks (renderTop e)) = .ok (renderTop e) :=
   lex_renderTop lc e h hn
@@ -235,6 +296,70 @@ theorem string_roundtrip_model (e : Expr) (h : wfE e = true) (hn : namesOk lexMo
 theorem string_roundtrip_spec (e : Expr) (h : wfE e = true) (hn : namesOk lexSpec e = true) :
     parseSpec (spellToks (renderTop e)) = .ok (normCtx e) :=
   parseSpec_spelling e h hn
+
+/-- **model_and_spec_read_alike** — the two formulations of XPath's rule for the operator names
+    (xsel: `retagOps` on the token list after the lexer; the specification: `Cfg.opNames` in the
+    parser, by grammar position) agree on every canonical spelling.  (`hs` follows from `hn`:
+    `namesOk_model_spec`, see `model_and_spec_read_alike'`.) -/
+theorem model_and_spec_read_alike (e : Expr) (h : wfE e = true) (hn : namesOk lexModel e = true)
+    (hs : namesOk lexSpec e = true) :
+    parseModel (spellToks (renderTop e)) = parseSpec (spellToks (renderTop e)) := by
+  rw [string_roundtrip_model e h hn, string_roundtrip_spec e h hs]
+
+theorem model_and_spec_read_alike' (e : Expr) (h : wfE e = true) (hn : namesOk lexModel e = true) :
+    parseModel (spellToks (renderTop e)) = parseSpec (spellToks (renderTop e)) :=
+  model_and_spec_read_alike e h hn (namesOk_model_spec e hn)
+
+/-- **operator_names_are_names** — under xsel's syntax an element called `div` (`or`, `and`, `mod`)
+    can be selected: where an operand is expected the word is a name, after an operand the operator;
+    and XPath 1.0's syntax reads the same strings the same way -/
+theorem operator_names_are_names :
+    parseModel "//div".toList
+      = .ok (.step (.step .root .descendantOrSelf .node .nil) .child (.name ['d','i','v']) .nil)
+    ∧ parseModel "a div div".toList
+      = .ok (.bin .div (.step .ctx .child (.name ['a']) .nil) (.step .ctx .child (.name ['d','i','v']) .nil))
+    ∧ parseModel "div div div mod mod".toList
+      = .ok (.bin .mod (.bin .div (.step .ctx .child (.name ['d','i','v']) .nil)
+                (.step .ctx .child (.name ['d','i','v']) .nil)) (.step .ctx .child (.name ['m','o','d']) .nil))
+    ∧ parseModel "or or and and or".toList
+      = .ok (.bin .or (.step .ctx .child (.name ['o','r']) .nil)
+              (.bin .and (.step .ctx .child (.name ['a','n','d']) .nil) (.step .ctx .child (.name ['o','r']) .nil)))
+    ∧ parseSpec "//div".toList = parseModel "//div".toList
+    ∧ parseSpec "a div div".toList = parseModel "a div div".toList
+    ∧ parseSpec "div div div mod mod".toList = parseModel "div div div mod mod".toList
+    ∧ parseSpec "or or and and or".toList = parseModel "or or and and or".toList := by
+  -- the tokens of the four strings: after xsel's lexer (operator names retagged), after XPath's
+  let d : Tok := .ncname ['d','i','v']
+  let m1 : Toks := [⟨.p .dslash, false⟩, ⟨d, true⟩]
+  let m2 : Toks := [⟨.ncname ['a'], false⟩, ⟨.kw .div, false⟩, ⟨d, false⟩]
+  let m3 : Toks := [⟨d, false⟩, ⟨.kw .div, false⟩, ⟨d, false⟩, ⟨.kw .mod, false⟩, ⟨.ncname ['m','o','d'], false⟩]
+  let m4 : Toks := [⟨.ncname ['o','r'], false⟩, ⟨.kw .or, false⟩, ⟨.ncname ['a','n','d'], false⟩,
+    ⟨.kw .and, false⟩, ⟨.ncname ['o','r'], false⟩]
+  let s1 : Toks := [⟨.p .dslash, false⟩, ⟨.kw .div, true⟩]
+  let s2 : Toks := [⟨.ncname ['a'], false⟩, ⟨.kw .div, false⟩, ⟨.kw .div, false⟩]
+  let s3 : Toks := [⟨.kw .div, false⟩, ⟨.kw .div, false⟩, ⟨.kw .div, false⟩, ⟨.kw .mod, false⟩, ⟨.kw .mod, false⟩]
+  let s4 : Toks := [⟨.kw .or, false⟩, ⟨.kw .or, false⟩, ⟨.kw .and, false⟩, ⟨.kw .and, false⟩, ⟨.kw .or, false⟩]
+  have h1 := parseModel_of (cs := "//div".toList) m1 rfl rfl
+  have h2 := parseModel_of (cs := "a div div".toList) m2 rfl rfl
+  have h3 := parseModel_of (cs := "div div div mod mod".toList) m3 rfl rfl
+  have h4 := parseModel_of (cs := "or or and and or".toList) m4 rfl rfl
+  exact ⟨h1, h2, h3, h4,
+    (parseSpec_of s1 rfl rfl).trans h1.symm, (parseSpec_of s2 rfl rfl).trans h2.symm,
+    (parseSpec_of s3 rfl rfl).trans h3.symm, (parseSpec_of s4 rfl rfl).trans h4.symm⟩
+
+example : parseModel "//div".toList
+    = .ok (.step (.step .root .descendantOrSelf .node .nil) .child (.name ['d','i','v']) .nil) :=
+  operator_names_are_names.1
+
+example : parseModel "a div div".toList
+    = .ok (.bin .div (.step .ctx .child (.name ['a']) .nil) (.step .ctx .child (.name ['d','i','v']) .nil)) :=
+  operator_names_are_names.2.1
+
+/-- a misplaced operator name is still an error: two operands in a row, an operator at the end -/
+example : parseModel "a div".toList = .err ∧ parseModel "a b div".toList = .err :=
+  ⟨parseModel_err_of [⟨.ncname ['a'], false⟩, ⟨.kw .div, false⟩] rfl (by decide +kernel) (by decide +kernel) rfl,
+   parseModel_err_of [⟨.ncname ['a'], false⟩, ⟨.ncname ['b'], false⟩, ⟨.kw .div, false⟩] rfl
+     (by decide +kernel) (by decide +kernel) rfl⟩
 
 /-- `//p:a[last() < 2.5]/@b | "it's"`: a union, a path with a predicate, a prefixed name, a call, a
     number with a fraction, a literal that contains a quote -/
@@ -262,8 +387,10 @@ example : parseModel " / descendant-or-self :: node ( ) / child :: p:a [ last ( 
   rw [← sampleTree_spelling, string_roundtrip_model sampleTree (by decide +kernel) (by decide +kernel)]
   simp [sampleTree, normCtx, normBase, normCtxs]
 
-/-- names that the hypothesis excludes are really read differently: a keyword as element name, a
-    name starting with `_` under xsel's lexer -/
+/-- names that the hypothesis excludes: a keyword as element name (the canonical spelling writes it as
+    an `ncname` token, the tokeniser reads a keyword token — which `lex lexModel` then turns into that
+    `ncname` where an operand is expected, see `operator_names_are_names`; an axis or node-type name
+    stays a keyword), a name starting with `_` under xsel's lexer -/
 example : namesOk lexModel (.step .ctx .child (.name ['d','i','v']) .nil) = false
     ∧ namesOk lexModel (.step .ctx .child (.name ['_','a']) .nil) = false
     ∧ namesOk lexSpec (.step .ctx .child (.name ['_','a']) .nil) = true := by
